@@ -46,17 +46,31 @@ def main():
     if not os.path.isdir(WT):
         sh("git -C /repo worktree add -q %s HEAD" % WT)
     sh("git checkout -q --detach $(git -C /repo rev-parse HEAD) && git checkout -- . && git clean -fdq tests src", cwd=WT)
-    demo_in_patch = False
-    if not skip_demo:
-        if os.path.exists(demo):
-            shutil.copy(demo, os.path.join(WT, "tests", "seed_demo.rs"))
-        else:
-            demo_in_patch = True
-        if not demo_in_patch:
-            rc0, out0 = sh("cargo test --offline --test seed_demo 2>&1 | tail -15", cwd=WT)
-            ok_without = "test result: ok" in out0
-            meta["demo_without_patch"] = "passes" if ok_without else "FAILS"
-            meta["ran"].append("pristine worktree: cargo test --offline --test seed_demo -> " + ("ok" if ok_without else "not ok"))
+    # demo kind: first line of notes.md `DEMO: integration` (default) or `DEMO: unit <src file> <cargo test filter>`
+    unit = None
+    notes = os.path.join(src, "notes.md")
+    if os.path.exists(notes):
+        first = open(notes).readline().strip()
+        m = re.match(r"DEMO:\s*unit\s+(\S+)\s+(\S+)", first)
+        if m:
+            unit = (m.group(1), m.group(2))
+
+    def place_demo():
+        if unit:
+            with open(os.path.join(WT, unit[0]), "a") as f:
+                f.write("\n" + open(demo).read())
+            return "cargo test --offline --lib %s 2>&1 | tail -25" % unit[1]
+        shutil.copy(demo, os.path.join(WT, "tests", "seed_demo.rs"))
+        return "cargo test --offline --test seed_demo 2>&1 | tail -25"
+
+    have_demo = (not skip_demo) and os.path.exists(demo)
+    if have_demo:
+        cmd_demo = place_demo()
+        rc0, out0 = sh(cmd_demo, cwd=WT)
+        ok_without = "test result: ok" in out0 and "0 passed" not in out0
+        meta["demo_without_patch"] = "passes" if ok_without else "FAILS"
+        meta["ran"].append("pristine worktree: %s -> %s" % (cmd_demo.split(" 2>&1")[0], "ok" if ok_without else "not ok"))
+        sh("git checkout -- . && git clean -fdq tests src", cwd=WT)
     rc, out = sh("git apply %s" % patch, cwd=WT)
     if rc != 0:
         print("ERROR: patch does not apply to pristine HEAD:\n" + out)
@@ -65,11 +79,12 @@ def main():
     meta["lib_tests_with_patch"] = out1.strip()
     meta["ran"].append("patched worktree: cargo test --offline --lib -> " + out1.strip())
     suite_ok = "227 passed; 0 failed" in out1
-    if not skip_demo and not demo_in_patch:
-        rc2, out2 = sh("cargo test --offline --test seed_demo 2>&1 | tail -25", cwd=WT)
+    if have_demo:
+        cmd_demo = place_demo()
+        rc2, out2 = sh(cmd_demo, cwd=WT)
         fails_with = "test result: FAILED" in out2 or "error: test failed" in out2
         meta["demo_with_patch"] = "fails" if fails_with else "PASSES"
-        meta["ran"].append("patched worktree: cargo test --offline --test seed_demo -> " + ("FAILED (as required)" if fails_with else "passed (demo does not show the defect)"))
+        meta["ran"].append("patched worktree: %s -> %s" % (cmd_demo.split(" 2>&1")[0], "FAILED (as required)" if fails_with else "passed (demo does not show the defect)"))
     sh("git checkout -- . && git clean -fdq tests src", cwd=WT)
     # ---- 2. the check against the real /repo -----------------------------------------------------------------------
     rc, out = sh("git -C /repo apply %s" % patch)
